@@ -14,8 +14,8 @@ import (
 func init() {
 	register(&propertyCheck{
 		id: "C07", level: "other", needs: loadNeeds{ssa: true},
-		decides: "for an enumerated set of panic-capable constructs, that none is unguarded in the interpreter packages (tokenizer, compiler, bytecode, data, symbols, builtins, parse, runtime): (1) every single-result type assertion is discharged by a dominating comma-ok assertion or type-switch case of the same value and type, by the Normalize partner contract (the two values returned by one data.Normalize call have the same dynamic type), by the Coerce contract (data.Coerce(v, model) returns model's type on its nil-error edge), by the static type, or by a named exception; (2) explicit panics are a frozen, read list; (3) every integer division or remainder has a constant or zero-tested divisor; " +
-			"(4) reflect.Value.Call is reached only through the recover-guarded safeReflectCall; (5) no pointer is tested against nil and dereferenced on a path from the nil edge.",
+		decides: "for an enumerated set of panic-capable constructs, that none is unguarded in the interpreter packages (tokenizer, compiler, bytecode, data, symbols, builtins, parse, runtime): (1) every single-result type assertion is discharged by a dominating comma-ok assertion or type-switch case of the same value and type, by a same-type-pair contract (bytecode.sameKindOperands on its success edge, the result and model of one data.Coerce, IsType-related values), by the static type, or by a named exception; (2) explicit panics are a frozen, read list; (3) every integer division or remainder has a constant or zero-tested divisor; " +
+			"(4) reflect.Value.Call is reached only through the recover-guarded safeReflectCall; (5) no pointer is tested against nil and dereferenced on a path from the nil edge; (6) every recover() can recover; (7) interface-keyed Go maps are indexed with hashable keys; (8) no method is called on reflect.TypeOf(x) unless x is concrete or was found non-nil; (9) every slice or channel allocation sized by an integer the program chose passes a lower and an upper bound test.",
 		misses: "index and slice bounds with computed indices, nil dereferences without a contradicting test, stack exhaustion by recursion, fatal runtime errors (concurrent map access is C08's), the REPL's terminal layer.",
 		run:    runC07,
 	})
@@ -86,6 +86,303 @@ var c07ReflectOK = map[string]string{
 	"reflect.describeBytecodeFunction|reflect call guarded#2": "calls the Declaration method of the same *bytecode.ByteCode",
 }
 
+var c07TypeOfOK = map[string]string{
+	"bytecode.CallWithReceiver|reflect.TypeOf(x).String": "the receiver is the object on which the member lookup found the native method; the lookup fails with an error for nil (getNativePackageMember tests it), so no nil receiver reaches this reflective path",
+	"bytecode.convertFromNativeArray|reflect.TypeOf(x).String": "the operand is the result of a native Go function declared to return a slice, obtained with reflect.Value.Interface(): a slice-typed result is a typed value even when the slice is nil",
+	"rest.Exchange|reflect.TypeOf(x).String": "rest.Exchange is the Go-level client helper of the CLI commands and the server's own relays; the Ego rest package does not call it, so no program reaches it (a text error reply to a caller that passed no response object would crash that CLI command: outside this property)",
+}
+
+// c07IsNilPredicate: a func(any) bool that answers true whenever its argument is nil.
+var c07NilPredicates = map[*ssa.Function]bool{}
+
+func c07IsNilPredicate(f *ssa.Function) bool {
+	if f == nil || f.Blocks == nil || len(f.Params) != 1 {
+		return false
+	}
+
+	if v, ok := c07NilPredicates[f]; ok {
+		return v
+	}
+
+	res := f.Signature.Results()
+	if res.Len() != 1 || !types.Identical(res.At(0).Type(), types.Typ[types.Bool]) {
+		c07NilPredicates[f] = false
+
+		return false
+	}
+
+	// with the "argument is not nil" edges removed, every return left answers true
+	cuts := cutEdges(f, func(ft Fact) bool { return ft.Kind == "nonnil" && ft.V == ssa.Value(f.Params[0]) })
+	ok := len(cuts) > 0
+
+	for b := range reach(f.Blocks[0], cuts, nil) {
+		if ret, isRet := b.Instrs[len(b.Instrs)-1].(*ssa.Return); isRet {
+			if v, isC := constBool(retResult(ret, 0)); !isC || !v {
+				ok = false
+			}
+		}
+	}
+
+	c07NilPredicates[f] = ok
+
+	return ok
+}
+
+var c07SizeOK = map[string]string{}
+
+// c07SizeLeaves returns the run-time integers a size expression is computed
+// from; empty when it is made of constants and lengths only.
+func c07SizeLeaves(v ssa.Value) []ssa.Value {
+	var out []ssa.Value
+
+	seen := map[ssa.Value]bool{}
+
+	var walk func(v ssa.Value)
+
+	walk = func(v ssa.Value) {
+		if v == nil || seen[v] {
+			return
+		}
+
+		seen[v] = true
+
+		switch x := v.(type) {
+		case *ssa.Const:
+		case *ssa.Convert:
+			walk(x.X)
+		case *ssa.ChangeType:
+			walk(x.X)
+		case *ssa.BinOp:
+			walk(x.X)
+			walk(x.Y)
+		case *ssa.Phi:
+			for _, e := range x.Edges {
+				walk(e)
+			}
+		case *ssa.Call:
+			if b, ok := x.Call.Value.(*ssa.Builtin); ok {
+				switch b.Name() {
+				case "len", "cap":
+					return
+				case "min", "max":
+					for _, a := range x.Call.Args {
+						walk(a)
+					}
+
+					return
+				}
+			}
+
+			if f := staticCallee(x.Common()); f != nil {
+				switch f.Name() {
+				case "Len", "NumField", "NumIn", "NumOut", "NumMethod", "Count":
+					return // lengths and counts are never negative
+				}
+			}
+
+			out = append(out, v)
+		case *ssa.UnOp:
+			if x.Op == token.MUL {
+				if rv := resolveLocal(v); rv != v {
+					walk(rv)
+
+					return
+				}
+
+				if vals, ok := storedValues(x.X); ok && len(vals) > 0 {
+					for _, sv := range vals {
+						walk(sv)
+					}
+
+					return
+				}
+			}
+
+			out = append(out, v)
+		default:
+			out = append(out, v)
+		}
+	}
+
+	walk(v)
+
+	return out
+}
+
+func c07HasRecover(fn *ssa.Function) bool {
+	found := false
+
+	for _, d := range deferredCalls(fn) {
+		if cf := calleeFunction(d.Common()); cf != nil {
+			allInstrs(cf, func(in ssa.Instruction) {
+				if c, ok := in.(*ssa.Call); ok {
+					if b, isB := c.Call.Value.(*ssa.Builtin); isB && b.Name() == "recover" {
+						found = true
+					}
+				}
+			})
+		}
+	}
+
+	return found
+}
+
+// c07ProgramInteger: the leaf is an integer conversion of a value the running
+// program supplied (an argument of a runtime function, a value popped from the
+// stack).
+func c07ProgramInteger(leaf ssa.Value) bool {
+	call, _ := resultOf(leaf)
+	if call == nil {
+		if c, ok := leaf.(*ssa.Call); ok {
+			call = c
+		}
+	}
+
+	if call == nil {
+		return false
+	}
+
+	id := callID(call.Common())
+	if !strings.HasPrefix(id, "internal/language/data.Int") && !strings.HasPrefix(id, "internal/language/data.GetInt") {
+		return false
+	}
+
+	if len(call.Call.Args) == 0 {
+		return false
+	}
+
+	return derivesFrom(call.Call.Args[0], func(v ssa.Value) bool {
+		c, ok := v.(*ssa.Call)
+		if !ok {
+			if ex, isEx := v.(*ssa.Extract); isEx {
+				c, ok = ex.Tuple.(*ssa.Call)
+			}
+		}
+
+		if !ok {
+			return false
+		}
+
+		switch callID(c.Common()) {
+		case "internal/language/data.List.Get", "internal/language/data.List.Elements",
+			"internal/language/bytecode.Context.Pop", "internal/language/bytecode.Context.PopWithoutUnwrapping",
+			"internal/language/data.Array.Get", "internal/language/data.Map.Get", "internal/language/data.Struct.Get":
+			return true
+		}
+
+		return false
+	}, nil)
+}
+
+// c07SizeBounded decides whether every program-chosen leaf is compared with a
+// bound before `at` executes in fn; parameters are followed into the callers.
+func c07SizeBounded(w *World, fn *ssa.Function, at ssa.Instruction, leaves []ssa.Value, callers map[*ssa.Function][]ssa.CallInstruction, depth int) (bad string, notes []string) {
+	for _, leaf := range leaves {
+		bounded := func(upper bool) bool {
+			cuts := cutEdges(fn, func(f Fact) bool {
+				if f.Kind != "cmp" {
+					return false
+				}
+
+				isLeaf := func(side ssa.Value) bool {
+					for _, l := range c07SizeLeaves(side) {
+						if l == leaf {
+							return true
+						}
+					}
+
+					return false
+				}
+
+				// on this edge "X Op Y" holds
+				switch f.Op {
+				case token.EQL:
+					return isLeaf(f.X) || isLeaf(f.Y)
+				case token.LSS, token.LEQ:
+					if upper {
+						return isLeaf(f.X)
+					}
+
+					return isLeaf(f.Y)
+				case token.GTR, token.GEQ:
+					if upper {
+						return isLeaf(f.Y)
+					}
+
+					return isLeaf(f.X)
+				}
+
+				return false
+			})
+
+			return len(cuts) > 0 && !instrReachableAfterCut(fn, at, cuts)
+		}
+
+		compared := func() bool { return bounded(false) && bounded(true) }
+
+		switch {
+		case c07ProgramInteger(leaf):
+			switch {
+			case !bounded(false):
+				return c40Describe(leaf) + " in " + fnKey(fn) + ", no lower bound", nil
+			case !bounded(true):
+				return c40Describe(leaf) + " in " + fnKey(fn) + ", no upper bound", nil
+			}
+
+			notes = append(notes, c40Describe(leaf)+" is compared with a lower and an upper bound on every path")
+		case isParam(leaf):
+			if compared() {
+				notes = append(notes, "parameter "+leaf.Name()+" is compared with a lower and an upper bound on every path")
+
+				continue
+			}
+
+			if depth >= 3 {
+				notes = append(notes, "parameter "+leaf.Name()+": callers beyond three levels not followed")
+
+				continue
+			}
+
+			idx := -1
+
+			for i, p := range fn.Params {
+				if ssa.Value(p) == leaf {
+					idx = i
+				}
+			}
+
+			sites := callers[fn]
+			checked := 0
+
+			for _, ci := range sites {
+				args := ci.Common().Args
+				if idx < 0 || idx >= len(args) {
+					continue
+				}
+
+				checked++
+
+				cl := c07SizeLeaves(args[idx])
+				if b, _ := c07SizeBounded(w, ci.Parent(), ci, cl, callers, depth+1); b != "" {
+					return b + " -> " + fnKey(fn) + "(" + leaf.Name() + ")", nil
+				}
+			}
+
+			notes = append(notes, "parameter "+leaf.Name()+": "+sprintInt(checked)+" call sites pass lengths, constants, interpreter state or bounded values")
+		default:
+			notes = append(notes, c40Describe(leaf)+" is interpreter state (instruction operand, compiler index, field), not an integer the program chooses")
+		}
+	}
+
+	return "", notes
+}
+
+func isParam(v ssa.Value) bool {
+	_, ok := v.(*ssa.Parameter)
+
+	return ok
+}
+
 var c07NilOK = map[string]string{
 	"bytecode.convertToNative|nil-tested result 0 of bytecode.getArgumentType dereferenced": "the later `t != nil` test is redundant: getArgumentType returns a nil type only together with an error, which is returned before t is used; parameter types of native declarations are always set",
 	"compiler.Compiler.compileAssignment|nil-tested result of bytecode.ByteCode.Instruction dereferenced": "the dereference is behind a boolean computed from the same nil test (firstInstr != nil && …); the walker does not track booleans",
@@ -100,6 +397,8 @@ func runC07(w *World, r *Report) {
 	r.Rule("R-C07-4", "reflect.Value.Call / CallSlice only inside a function with a deferred recover", 1)
 	r.Rule("R-C07-5", "no dereference of a pointer on a path from the edge where it was found nil", 0)
 	r.Rule("R-C07-7", "a Go map with an interface key type is indexed only with a key of comparable static type, a key obtained by ranging over a map, or behind data.hashableKey(key)", 5)
+	r.Rule("R-C07-8", "a method is called on reflect.TypeOf(x) only where x has a concrete static type or was found non-nil on every path (reflect.TypeOf(nil) is a nil Type)", 10)
+	r.Rule("R-C07-9", "every make of a slice or channel whose size is computed from an integer the running program chose (data.Int of a function argument or a stack value; parameters are followed into their callers, three levels) is reachable only through a lower-bound and an upper-bound comparison of that integer, or sits under a deferred recover", 3)
 	r.Rule("R-C07-6", "every recover() in the repository is called directly by a function that is the target of a defer statement (a recover() in a helper recovers nothing)", 4)
 
 	var fns []*ssa.Function
@@ -295,6 +594,126 @@ func runC07(w *World, r *Report) {
 				r.Except("R-C07-7", key, w.pos(in.Pos()), why)
 			} else {
 				r.Violate("R-C07-7", key, w.pos(in.Pos()), "a map with an interface key type is indexed with a value whose dynamic type is not known to be hashable: a function, slice or map key supplied by the program makes the Go runtime panic (hash of unhashable type)")
+			}
+		})
+	}
+
+	// ---- R-C07-8: a method of reflect.TypeOf(x) needs a non-nil x
+	for _, fn := range fns {
+		n := 0
+
+		allInstrs(fn, func(in ssa.Instruction) {
+			ci, ok := in.(ssa.CallInstruction)
+			if !ok || !ci.Common().IsInvoke() {
+				return
+			}
+
+			tcall, ok := ci.Common().Value.(*ssa.Call)
+			if !ok || callID(tcall.Common()) != "reflect.TypeOf" {
+				return
+			}
+
+			n++
+
+			key := fnKey(fn) + "|reflect.TypeOf(x)." + ci.Common().Method.Name()
+			if n > 1 {
+				key += "#" + sprintInt(n)
+			}
+
+			x := tcall.Call.Args[0]
+
+			if mi, isMI := x.(*ssa.MakeInterface); isMI {
+				if _, isIface := mi.X.Type().Underlying().(*types.Interface); !isIface {
+					r.Discharge("R-C07-8", key, w.pos(in.Pos()), "operand of static type "+mi.X.Type().String()+": its reflect type is never nil")
+
+					return
+				}
+			}
+
+			xr := resolveLocal(x)
+
+			cuts := cutEdges(fn, func(f Fact) bool {
+				// the false edge of a nil predicate applied to the operand (data.IsNil(x))
+				if f.Kind == "false" {
+					if pc, isCall := f.V.(*ssa.Call); isCall && len(pc.Call.Args) == 1 && (pc.Call.Args[0] == x || resolveLocal(pc.Call.Args[0]) == xr) {
+						return c07IsNilPredicate(calleeFunction(pc.Common()))
+					}
+				}
+
+				if f.Kind != "nonnil" {
+					return false
+				}
+
+				return f.V == x || f.V == xr || resolveLocal(f.V) == xr || f.V == ssa.Value(tcall)
+			})
+
+			if len(cuts) > 0 && !instrReachableAfterCut(fn, in, cuts) {
+				r.Discharge("R-C07-8", key, w.pos(in.Pos()), "reachable only where the operand (or the type) was found non-nil")
+			} else if why, ok := c07TypeOfOK[key]; ok {
+				r.Except("R-C07-8", key, w.pos(in.Pos()), why)
+			} else {
+				r.Violate("R-C07-8", key, w.pos(in.Pos()), "reflect.TypeOf("+c40Describe(xr)+") is nil when the operand is nil, and the method call on it is a nil dereference: a program that puts nil there crashes the interpreter")
+			}
+		})
+	}
+
+	// ---- R-C07-9: a slice or channel is made with a size that was compared with a bound
+	callers := map[*ssa.Function][]ssa.CallInstruction{}
+
+	for _, fn := range fns {
+		allCalls(fn, func(ci ssa.CallInstruction) {
+			if cf := calleeFunction(ci.Common()); cf != nil {
+				callers[cf] = append(callers[cf], ci)
+			}
+		})
+	}
+
+	for _, fn := range fns {
+		n := 0
+
+		allInstrs(fn, func(in ssa.Instruction) {
+			var size ssa.Value
+
+			what := ""
+
+			switch x := in.(type) {
+			case *ssa.MakeSlice:
+				size, what = x.Len, "make(slice)"
+			case *ssa.MakeChan:
+				size, what = x.Size, "make(chan)"
+			default:
+				return
+			}
+
+			leaves := c07SizeLeaves(size)
+			if len(leaves) == 0 {
+				return // constants and lengths only
+			}
+
+			n++
+
+			key := fnKey(fn) + "|" + what + " size " + c40Describe(leaves[0])
+			if n > 1 {
+				key += "#" + sprintInt(n)
+			}
+
+			if c07HasRecover(fn) {
+				r.Discharge("R-C07-9", key, w.pos(in.Pos()), "inside a function with a deferred recover")
+
+				return
+			}
+
+			bad, notes := c07SizeBounded(w, fn, in, leaves, callers, 0)
+
+			switch {
+			case bad == "":
+				r.Discharge("R-C07-9", key, w.pos(in.Pos()), strings.Join(notes, "; "))
+			default:
+				if why, ok := c07SizeOK[key]; ok {
+					r.Except("R-C07-9", key, w.pos(in.Pos()), why)
+				} else {
+					r.Violate("R-C07-9", key, w.pos(in.Pos()), "the size of this allocation is an integer chosen by the running program ("+bad+") that does not pass both a lower- and an upper-bound comparison on the way here: a negative or oversized value makes the Go runtime panic (makeslice: len out of range)")
+				}
 			}
 		})
 	}
